@@ -129,6 +129,8 @@ def main():
         signal.signal(signal.SIGALRM, on_alarm)
         signal.alarm(limit)
         timed_out = False
+        cov = common.ImplCoverage()
+        cov.start()
         try:
             mod.run(ctx)
         except common.StopCheck:
@@ -136,6 +138,10 @@ def main():
             rep.extra['stopped_early'] = 'time limit' if timed_out else 'enough failing inputs'
         finally:
             signal.alarm(0)
+            c = cov.stop()
+            if c:
+                tot = [sum(v[0] for v in c.values()), sum(v[1] for v in c.values())]
+                rep.extra['impl_line_coverage'] = {'total': tot, 'by_module': {k: v for k, v in sorted(c.items()) if v[0] > 0}}
         if timed_out:
             print(f'time limit of {limit} s reached with no violation recorded', file=sys.stderr)
             return 2
